@@ -4,7 +4,8 @@
 (* repository statuses polled by the harness.  Unobserved olla-internal steps (how an       *)
 (* attempt ended, a refused connection, a breaker skip, giving up) are silent spec actions. *)
 EXTENDS Dispatch, TraceLib, FiniteSetsExt
-CONSTANT KnownDeviations
+CONSTANTS KnownDeviations,
+          Scopes    \* statistic scopes judged beyond the per-endpoint one: "global", "translator" (C19 only)
 VARIABLE l
 tvars == <<vars, l>>
 Is(name) == l <= NEv /\ TLog[l].ev = name
@@ -59,12 +60,13 @@ TStats == /\ Is("Stats") /\ \A r \in Reqs : rq[r].phase = "done"
           /\ E.proxy.total = E.proxy.ok + E.proxy.fail
           \* global scope: a success is only ever booked together with an endpoint's; failures may also be
           \* booked without one (nothing could be tried), at most one per request
-          /\ E.proxy.ok = FoldSet(LAMBDA e, acc : acc + cnt[e].ok, 0, EP)
-          /\ E.proxy.fail >= FoldSet(LAMBDA e, acc : acc + cnt[e].fail, 0, EP)
-          /\ E.proxy.fail <= FoldSet(LAMBDA e, acc : acc + cnt[e].fail, 0, EP) + Cardinality(Reqs)
+          /\ "global" \in Scopes =>
+                /\ E.proxy.ok = FoldSet(LAMBDA e, acc : acc + cnt[e].ok, 0, EP)
+                /\ E.proxy.fail >= FoldSet(LAMBDA e, acc : acc + cnt[e].fail, 0, EP)
+                /\ E.proxy.fail <= FoldSet(LAMBDA e, acc : acc + cnt[e].fail, 0, EP) + Cardinality(Reqs)
           \* translator scope: every request on a translated route is recorded exactly once; a success iff the
           \* client received the response in full with a success status
-          /\ "tr" \in DOMAIN E =>
+          /\ ("tr" \in DOMAIN E /\ "translator" \in Scopes) =>
                 /\ E.tr.total = E.tr.ok + E.tr.fail
                 /\ E.tr.total = Cardinality({r \in Reqs : Translated(rq[r].route)})
                 /\ \/ E.tr.ok = Cardinality({r \in Reqs : Translated(rq[r].route) /\ rq[r].last = "full" /\ rq[r].pst < 400})
